@@ -206,3 +206,67 @@ theorem tokenizeFuel_total (modes : List ScanMode) :
         exact this
 
 end ParolModel
+
+namespace ParolModel
+
+theorem longestFromFast_isSome_of_best (ok : List Nat → Bool) :
+    ∀ (w : List Nat) (r : Re) (n : Nat) (best : Option Nat), best.isSome →
+      (longestFromFast ok r w n best).isSome := by
+  intro w
+  induction w with
+  | nil => intro r n best h; simpa [longestFromFast] using h
+  | cons x xs ih =>
+    intro r n best h
+    simp only [longestFromFast]
+    split
+    · exact h
+    · apply ih
+      split
+      · rfl
+      · exact h
+
+theorem bestOf_isSome_of_best (len : ScanTerm → Option Nat) :
+    ∀ (ts : List ScanTerm) (best : Option (Nat × Nat)), best.isSome → (bestOf len ts best).isSome := by
+  intro ts
+  induction ts with
+  | nil => intro best h; simpa [bestOf] using h
+  | cons t ts ih =>
+    intro best h
+    simp only [bestOf]
+    split
+    · exact ih _ h
+    · exact ih _ rfl
+    · apply ih; split <;> rfl
+
+theorem bestOf_isSome_of_mem (len : ScanTerm → Option Nat) :
+    ∀ (ts : List ScanTerm) (best : Option (Nat × Nat)) (t : ScanTerm), t ∈ ts → (len t).isSome →
+      (bestOf len ts best).isSome := by
+  intro ts
+  induction ts with
+  | nil => intro best t ht; cases ht
+  | cons u ts ih =>
+    intro best t ht hl
+    rcases List.mem_cons.mp ht with rfl | ht'
+    · simp only [bestOf]
+      split
+      · rename_i hn; rw [hn] at hl; cases hl
+      · exact bestOf_isSome_of_best _ _ _ rfl
+      · apply bestOf_isSome_of_best; split <;> rfl
+    · simp only [bestOf]
+      split
+      · exact ih _ t ht' hl
+      · exact ih _ t ht' hl
+      · exact ih _ t ht' hl
+
+/-- A terminal without lookahead whose regex matches the single character `c` has a match at
+    every position that starts with `c`. -/
+theorem matchLen_isSome_of_single (t : ScanTerm) (hla : t.la = none) (c : Nat) (rest : List Nat)
+    (hm : matchesRe t.re [c] = true) : (t.matchLen (c :: rest)).isSome := by
+  have hn : nullable (deriv t.re c) = true := by simpa [matchesRe, derivs] using hm
+  simp only [ScanTerm.matchLen, longestFromFast]
+  split
+  · rename_i he; rw [he] at hn; cases hn
+  · apply longestFromFast_isSome_of_best
+    simp [hn, hla, laHolds]
+
+end ParolModel
